@@ -91,6 +91,9 @@ def FloatIO : FloatOps Float where
   neg x := -x
   pow10 e := Float.pow 10.0 (Float.ofInt e)
   eq a b := a == b
+  isNan x := x.isNaN
+  isInf x := x.isInf
+  ltZero x := x < 0
 
 def isFinite (x : Float) : Bool := (x.toBits.toNat / 2 ^ 52) % 2048 != 2047
 
@@ -226,7 +229,7 @@ def sortBy {β} (key : β → List Byte) (l : List β) : List β :=
     `approx`: floats by their "%g" text instead of their bits. -/
 partial def pv (approx : Bool) : V → String
   | .int n => s!"i{n}"
-  | .real x => if approx then "g" ++ fmtG x else "f" ++ natDigitsHex x.toBits.toNat
+  | .real x => if approx then "g" ++ String.ofList ((saveReal FloatIO x).map Char.ofNat) else "f" ++ natDigitsHex (if x.isNaN then 0x7ff8000000000000 else x.toBits.toNat)
   | .str s => "s" ++ hexOf s
   | .obj => "o"
   | .arr xs => "a[" ++ ",".intercalate (xs.toList.map (pv approx)) ++ "]"
